@@ -330,6 +330,149 @@ Fixpoint ref_all_errors (rs : list (vresult Z)) : list Z :=
 Definition prop_combine (rs : list (vresult Z)) (o : vresult Z) : bool :=
   if forallb is_ok rs then is_ok o else result_eqb o (VErr (ref_all_errors rs)).
 
+(* ---------- big runs: summaries only ----------
+   k runs of n records through ONE collector; run j holds records j*n .. (j+1)*n - 1; record i is
+   invalid iff i mod m >= t and then carries 1 + i mod 3 errors (harness: big_value). The rows are
+   generated here from [n, m, t]; only summaries travel. *)
+Definition big_invalid (m t i : Z) : bool := t <=? i mod m.
+Definition big_value (m t i : Z) : Z := 4 * i + (if big_invalid m t i then 1 + i mod 3 else 0).
+Fixpoint big_rows (keyed : bool) (m t : Z) (fuel : nat) (i : Z) : list (list Z) :=
+  match fuel with
+  | O => []
+  | S f => (if keyed then [i mod 7; big_value m t i] else [big_value m t i])
+           :: big_rows keyed m t f (i + 1)
+  end.
+
+(* [len; sum of values; first; last; strictly increasing and (keyed) key = (v / 4) mod 7] *)
+Definition sum_rows (keyed : bool) (rows : list (list Z)) : list Z :=
+  let '(len, sm, fst_, lst, ok) :=
+    fold_left (fun (acc : Z * Z * Z * Z * bool) row =>
+                 let '(len, sm, fst_, lst, ok) := acc in
+                 let v := row_value row in
+                 (len + 1, sm + v, (if len =? 0 then v else fst_), v,
+                  ok && ((len =? 0) || (lst <? v)) &&
+                  (if keyed then hd 0 row =? (v / 4) mod 7 else true)))
+              rows (0, 0, -1, -1, true) in
+  [len; sm; fst_; lst; if ok then 1 else 0].
+Definition zsum (l : list Z) : Z := fold_left Z.add l 0.
+(* [entries; sum of codes; number of errors]. The positions e_idx are unary numbers up to n, so
+   summing them here would cost O(n^2); the identifiers of big runs are judged against the
+   arithmetic reference instead (they are checked against the model in the run/row kinds). *)
+Definition sum_entries (lg : list (entry Z)) : list Z :=
+  fold_left (fun acc e =>
+               match acc with
+               | [c; sc; ne] =>
+                   [c + 1; sc + zsum (e_errors e); ne + Z.of_nat (List.length (e_errors e))]
+               | _ => acc
+               end) lg [0; 0; 0].
+
+(* the model on the k runs: per-run output summaries and the concatenated appends *)
+Fixpoint model_big (keyed : bool) (md : mode) (hc : bool) (n : nat) (m t : Z) (k : nat) (j : Z)
+  : outcome (list (list Z) * list (entry Z)) :=
+  match k with
+  | O => Ok ([], [])
+  | S k' =>
+      let rows := big_rows keyed m t n (j * Z.of_nat n) in
+      obind (if keyed then model_run_keyed md hc rows else model_run md hc rows)
+            (fun r => obind (model_big keyed md hc n m t k' (j + 1))
+                            (fun rest => Ok (sum_rows keyed (fst r) :: fst rest,
+                                             snd r ++ snd rest)))
+  end.
+
+(* reference, by arithmetic on the pattern (no model, no rows): one pass over i *)
+Record bigref := { b_len : Z; b_sum : Z; b_first : Z; b_last : Z;
+                   b_bad : Z; b_codes : Z; b_nerrs : Z; b_idx : Z }.
+Fixpoint ref_big_run (m t : Z) (fuel : nat) (i pos : Z) (a : bigref) : bigref :=
+  match fuel with
+  | O => a
+  | S f =>
+      ref_big_run m t f (i + 1) (pos + 1)
+        (if t <=? i mod m then
+           let ne := 1 + i mod 3 in
+           let v := 4 * i + ne in
+           {| b_len := b_len a; b_sum := b_sum a; b_first := b_first a; b_last := b_last a;
+              b_bad := b_bad a + 1;
+              b_codes := b_codes a + ne * (4 * v) + ne * (ne - 1) / 2;
+              b_nerrs := b_nerrs a + ne; b_idx := b_idx a + pos |}
+         else
+           {| b_len := b_len a + 1; b_sum := b_sum a + 4 * i;
+              b_first := (if b_len a =? 0 then 4 * i else b_first a); b_last := 4 * i;
+              b_bad := b_bad a; b_codes := b_codes a; b_nerrs := b_nerrs a; b_idx := b_idx a |})
+  end.
+Definition bigref0 (bad codes nerrs idx : Z) : bigref :=
+  {| b_len := 0; b_sum := 0; b_first := -1; b_last := -1;
+     b_bad := bad; b_codes := codes; b_nerrs := nerrs; b_idx := idx |}.
+(* per-run (len, sum, first, last, invalid count) and the totals over all runs *)
+Fixpoint ref_big (n : nat) (m t : Z) (k : nat) (j : Z) (bad codes nerrs idx : Z)
+  : list (list Z) * list Z :=
+  match k with
+  | O => ([], [bad; codes; nerrs; idx])
+  | S k' =>
+      let a := ref_big_run m t n (j * Z.of_nat n) 0 (bigref0 bad codes nerrs idx) in
+      let '(rest, tot) := ref_big n m t k' (j + 1) (b_bad a) (b_codes a) (b_nerrs a) (b_idx a) in
+      ([b_len a; b_sum a; b_first a; b_last a; b_bad a - bad] :: rest, tot)
+  end.
+
+Inductive bigobs := BPanic | BErr | BOk (runs : list (list Z)) (coll : list Z).
+Definition dec_bigobs (j : J) : option bigobs :=
+  match j with
+  | JL [t] => if jtag_is "panic" t then Some BPanic else None
+  | JL [t; JL jruns; jc] =>
+      if jtag_is "ok" t then
+        match omap jints jruns, jints jc with
+        | Some runs, Some c => Some (BOk runs c)
+        | _, _ => None
+        end
+      else if jtag_is "err" t then Some BErr else None
+  | JL [t; _] => if jtag_is "err" t then Some BErr else None
+  | _ => None
+  end.
+
+(* observed collector summary: [error_count; entries; distinct payloads; sum of codes;
+   number of errors; sum of idx; malformed entries] *)
+Definition agree_big (seq : bool) (ref_idx : Z)
+           (m : outcome (list (list Z) * list (entry Z))) (o : bigobs) : bool :=
+  match m, o with
+  | Panic, BPanic => true
+  | Ok (runs, lg), BOk oruns [cnt; nent; ndist; scodes; nerrs; sidx; nbad] =>
+      match sum_entries lg with
+      | [c; sc; ne] =>
+          let si := if c =? 0 then 0 else ref_idx in
+          ll_eqb runs oruns && (cnt =? c) && (nent =? c) &&
+          (ndist =? c) &&                 (* every invalid record has its own first code *)
+          (scodes =? sc) && (nerrs =? ne) && (nbad =? 0) &&
+          (if seq then sidx =? si else (0 <=? sidx) && (sidx <=? si))
+                                          (* a local position never exceeds the global one *)
+      | _ => false
+      end
+  | _, _ => false
+  end.
+
+Definition prop_big (md : mode) (hc seq : bool) (n : nat) (m t : Z) (k : nat) (o : bigobs)
+  : bool :=
+  let '(rruns, tot) := ref_big n m t k 0 0 0 0 0 in
+  match tot with
+  | [bad; codes; nerrs; idx] =>
+      match md, o with
+      | FailFast, BPanic => 0 <? bad
+      | FailFast, BOk oruns [cnt; nent; ndist; scodes; ne; sidx; nbad] =>
+          (bad =? 0) && (cnt =? 0) && (nent =? 0) &&
+          ll_eqb oruns (map (fun r => firstn 4 r ++ [1]) rruns)
+      | _, BOk oruns [cnt; nent; ndist; scodes; ne; sidx; nbad] =>
+          (* output: exactly the valid records, in order, keys intact *)
+          ll_eqb oruns (map (fun r => firstn 4 r ++ [1]) rruns) &&
+          (if (match md with LogAndContinue => hc | _ => false end) then
+             (cnt =? bad) && (nent =? cnt) && (ndist =? cnt) && (scodes =? codes) &&
+             (ne =? nerrs) && (nbad =? 0) &&
+             (* the accounting identity: |output| + |entries| = |input| over all runs *)
+             (zsum (map (fun r => hd 0 r) oruns) + nent =? Z.of_nat k * Z.of_nat n) &&
+             (if seq then sidx =? idx else true)
+           else (cnt =? 0) && (nent =? 0))
+      | _, _ => false
+      end
+  | _ => false
+  end.
+
 (* ---------- entry point ---------- *)
 Definition finish (r : option (bool * bool)) : verdict :=
   match r with Some (a, p) => ok_verdict a p | None => malformed end.
@@ -349,6 +492,24 @@ Definition check_C17 (kind : string) (input output : J) : verdict :=
             | _, _ => malformed
             end
         | _, _, _ => malformed
+        end
+    | _ => malformed
+    end
+  else if String.eqb kind "big" then
+    (* in = [keyed, mode, has_collector, exec, threads, partitions, n, m, t, runs] *)
+    match input with
+    | JL [jk; JI md; jhc; JI ex; JI _; JI _; JI n; JI m; JI t; JI k] =>
+        match jbit jk, mode_of md, jbit jhc, dec_bigobs output with
+        | Some keyed, Some mo, Some hc, Some o =>
+            if ((ex =? 0) || (ex =? 1)) && (0 <=? n) && (1 <=? m) && (0 <=? t) && (1 <=? k)
+            then
+              ok_verdict
+                (agree_big (ex =? 0)
+                           (nth 3 (snd (ref_big (Z.to_nat n) m t (Z.to_nat k) 0 0 0 0 0)) 0)
+                           (model_big keyed mo hc (Z.to_nat n) m t (Z.to_nat k) 0) o)
+                (prop_big mo hc (ex =? 0) (Z.to_nat n) m t (Z.to_nat k) o)
+            else malformed
+        | _, _, _, _ => malformed
         end
     | _ => malformed
     end
